@@ -38,9 +38,9 @@ class Check(FormulaCheck):
                    'an error in an IFS condition is demanded to surface only up to and including the first true condition')
 
     def plan(self, tier, seed):
-        specs = [{'campaign': 'sentinels'}, {'campaign': 'tuples', 'seed': seed, 'sampled': 600 if tier == 'quick' else 60000, 'i': 0},
-                 {'campaign': 'errors', 'seed': seed}, {'campaign': 'predicates', 'seed': seed, 'n': 300 if tier == 'quick' else 20000}]
-        n, k = (1200, 8) if tier == 'quick' else (40000, 16)
+        specs = [{'campaign': 'sentinels'}, {'campaign': 'tuples', 'seed': seed, 'sampled': 4000 if tier == 'quick' else 60000, 'i': 0},
+                 {'campaign': 'errors', 'seed': seed}, {'campaign': 'predicates', 'seed': seed, 'n': 3000 if tier == 'quick' else 20000}]
+        n, k = (4000, 16) if tier == 'quick' else (40000, 16)
         for i in range(k):
             specs.append({'campaign': 'branches', 'seed': seed, 'n': n, 'i': i})
         if tier != 'quick':
